@@ -499,11 +499,22 @@ PropApplyPlans(S, id, p) ==
                                     \* PAp-refused, per failure class
                                     [class \in {"UNKNOWN", "NOT_FOUND", "ALREADY_EXISTS", "UNAUTHORIZED", "CONFLICT",
                                                 "INVALID", "NOT_SUPPORTED", "INTERNAL"} |->
-                                       << WCfgS(S, p.t, [cfg EXCEPT !.applied = p.i], TRUE),
-                                          WProp(S, id, [p EXCEPT !.ph.app = "F", !.fail = class, !.term = cfg.term]) >>],
+                                       \* the failure is recorded first, then the applied index is moved past the proposal
+                                       << WProp(S, id, [p EXCEPT !.ph.app = "F", !.fail = class, !.term = cfg.term]),
+                                          WCfgS(S, p.t, [cfg EXCEPT !.applied = p.i], TRUE) >>],
                                     \* PAp-transient
                                     << RetErr >>) >> }                                             \* PAp-send
-      [] p.ph.app \in {"D", "F"} -> IF p.next # 0 THEN {<< Ret("prop", PID(p.t, p.next)) >>} ELSE {<< >>}    \* PAp'
+      [] p.ph.app = "F" ->
+            \* a FAILED proposal makes sure the applied index was moved past it (a crash or a conflict may have come
+            \* between the two writes of the refusal), then wakes its successor
+            LET wakenext == IF p.next # 0 THEN << Ret("prop", PID(p.t, p.next)) >> ELSE << >> IN
+            IF p.t \notin DOMAIN S.cfgs THEN {<< >>}
+            ELSE LET cfg == S.cfgs[p.t] IN
+                 IF cfg.applied < p.i
+                 THEN IF p.prev # 0 /\ cfg.applied # p.prev THEN {<< Ret("prop", PID(p.t, p.prev)) >>}      \* PAf-waitprev
+                      ELSE {<< WCfgS(S, p.t, [cfg EXCEPT !.applied = p.i], TRUE) >> \o wakenext}             \* PAf-complete
+                 ELSE {wakenext}                                                                         \* PAf'
+      [] p.ph.app = "D" -> IF p.next # 0 THEN {<< Ret("prop", PID(p.t, p.next)) >>} ELSE {<< >>}    \* PAp'
       [] OTHER -> {<< >>}
 
 PropPlans(S, id) ==
